@@ -272,8 +272,12 @@ impl LangInterpreter for French {
                 } else {
                     ""
                 };
+                // each neighbour is probed on its own, from a clean builder
+                b.reset();
+                let previous_is_nan = self.apply(previous_text, &mut b).is_err();
+                b.reset();
                 if previous_text != "numéro"
-                    && self.apply(previous_text, &mut b).is_err()
+                    && previous_is_nan
                     && self.apply(next_text, &mut b).is_err()
                 {
                     tokens[true_words[i]].set_nan(true);
